@@ -256,6 +256,15 @@ def probe_groups(derive_feature):
         mod = (f"use super::*;\npub mod m {{\n{inner}{decl}\n}}\npub fn run() {{ let rows: ::std::vec::Vec<::std::string::String> = "
                f"vec![{rows}]; report({json.dumps(key)}, &rows); }}")
         groups.setdefault(fs, []).append((key, mod))
+        # the same declaration with its derives named through the crate's other two module paths (one of them per case):
+        # `derive_more::with_trait::X` must be derive_more's macro under every feature set, never a std derive of that name
+        alt = ["with_trait", "derive"][vlib.seeded_pick(key, 3, 2)]
+        decl2 = re.sub(r"#\[derive\(([^\]]*)\)\]", lambda m: "#[derive(" + re.sub(r"\bderive_more::(\w+)", rf"derive_more::{alt}::\1", m.group(1)) + ")]", decl)
+        if decl2 != decl:
+            key2 = f"{key}|{alt}"
+            mod2 = (f"use super::*;\npub mod m {{\n{inner}{decl2}\n}}\npub fn run() {{ let rows: ::std::vec::Vec<::std::string::String> = "
+                    f"vec![{rows}]; report({json.dumps(key2)}, &rows); }}")
+            groups.setdefault(fs, []).append((key2, mod2))
     for n, (fam, decl) in enumerate(GENERIC_ITEMS):
         fs = frozenset(feat_of[d] for d in set(re.findall(r"derive_more::(\w+)", decl)) if d in feat_of)
         key = f"generic:{fam}:{n}"
